@@ -197,7 +197,7 @@ def make_case(rnd, idx, table, special=None):
     fid = "F%d" % rnd.randrange(1, 9)
     others = ["G7", "SOYSM1", fid + "X"]
     c = {"idx": idx, "fmt": f, "begin": begin, "end": end, "B": B, "E": E, "crops": crops, "fid": fid,
-         "special": special, "fertilization": rnd.choice([100, 100, 80, 50, 120, 33]),
+         "special": special, "fertilization": rnd.choice([100, 100, 0, 1, 50, 150, 80, 33]), "fert_from": rnd.choice(["line", "config"]),
          "soil": rnd.choice(["001", "041", "075", "160"]), "fcode": rnd.choice(["109_120", "109_121"])}
 
     def pre(n):
@@ -215,6 +215,13 @@ def make_case(rnd, idx, table, special=None):
     if special == "pp-fert":
         d = B + 150
         body = [d, d, d + 1, d + 1, d + 40]
+    if special is None and rnd.random() < 0.6:
+        # fertilisations 0..14 days before, and on, the annual output date (31 October) of the years of the run
+        for yy in range(begin.year, end.year + 1):
+            d = daynum(datetime.date(yy, 10, 31)) - rnd.choice([0, 0, 1, 3, 7, 14])
+            if B < d < E - 20 and rnd.random() < 0.7:
+                body.append(d)
+        body.sort()
     names = [r[0] for r in table]
     fert = []
     for i, d in enumerate(fd + body):
@@ -343,11 +350,17 @@ def write_project(ex, case):
     open(os.path.join(dst, "crop_%s.txt" % name), "w").write(
         "Field_ID    crp  sowing harvst Rex yld autorg variety comment\n" + "".join(l + "\n" for _, l in cl) + "end\n")
     annual = "3110" if f < 2 else "1031"
+    # the global fertilisation factor (percent) comes from the batch line or from the project's config.yml
+    cfgp = os.path.join(dst, "config.yml")
+    cfg = open(cfgp).read()
+    cfg2 = re.sub(r"(?m)^Fertilization:.*$", "Fertilization: %d" % (case["fertilization"] if case["fert_from"] == "config" else 77), cfg)
+    assert cfg2 != cfg or "Fertilization: 100" in cfg
+    open(cfgp, "w").write(cfg2)
     return ("project=%s WeatherFolder=historical soilId=%s fcode=%s plotNr=10001 Altitude=73 Latitude=52.6 poligonID=1 "
             "CropFileFormat=txt AutoIrrigation=0 AutoFertilization=0 AutoSowingHarvest=0 AutoHarvest=0 ManagementEvents=1 "
-            "OutputIntervall=0 Dateformat=%d StartYear=%d EndDate=%s AnnualOutputDate=%s Fertilization=%d resultfolder=%s"
+            "OutputIntervall=0 Dateformat=%d StartYear=%d EndDate=%s AnnualOutputDate=%s %sresultfolder=%s"
             % (name, case["soil"], case["fcode"], f, case["begin"].year, fmt_date(case["end"], f), annual,
-               case["fertilization"], os.path.join(ex, "R", name)))
+               ("Fertilization=%d " % case["fertilization"]) if case["fert_from"] == "line" else "", os.path.join(ex, "R", name)))
 
 
 def _run(ctx):
@@ -420,14 +433,15 @@ def _coq_run(c, slots):
             "   r_fert := [%s];\n   r_till := [%s];\n   r_irr := [%s];\n"
             "   o_ztdg := %s; o_fpay := %s;\n   o_einte := %s; o_eint := %s; o_tilart := %s;\n"
             "   o_ztbr := %s; o_breg := %s; o_brkz := %s;\n   o_ffired := %s; o_tfired := %s; o_ifired := %s;\n"
-            "   o_fjump := %s;\n   o_ijump := %s;\n   o_harv_arrays := %s |}"
+            "   o_fjump := %s;\n   o_ijump := %s;\n   o_harv_arrays := %s;\n   o_dungszen := %s |}"
             % (ini["beginn"], ini["ende"], slots, hexf(float(c["fertilization"])), waterlib.fl(ini["depos"]), waterlib.fl(ini["dt"]),
                "; ".join("(%s, %d%%uint63, %s)" % (k, d, p) for (k, d, p) in _triples(c["fert_layout"], fconv)),
                "; ".join("(%s, %d%%uint63, %s)" % (k, d, p) for (k, d, p) in _triples(c["till_layout"], tconv)),
                "; ".join("(%s, %d%%uint63, %s)" % (k, d, p) for (k, d, p) in _triples(c["irr_layout"], iconv)),
                ints(ini["ztdg"]), fpay, ints(ini["einte"]), fls(ini["eint"]), ints(ini["tilart"]),
                ints(ini["ztbr"]), fls(ini["breg"]), fls(ini["brkz"]), fired("fert"), fired("till"), fired("irr"), fjump, ijump,
-               "[" + "; ".join("(%s, %s)" % (ints(e["ztdg"]), ints(e["einte"])) for e in c["ev"] if e["kind"] == "harv") + "]"))
+               "[" + "; ".join("(%s, %s)" % (ints(e["ztdg"]), ints(e["einte"])) for e in c["ev"] if e["kind"] == "harv") + "]",
+               waterlib.fl(ini["dungszen"])))
 
 
 def _triples(layout_, conv):
@@ -450,7 +464,8 @@ def _table_coq(table):
 HDR = ["From Coq Require Import ZArith List Bool Floats Uint63 String.", "From Hermes Require Import Num SchedModel C10Corr.",
        "Import ListNotations.", "Open Scope float_scope."]
 MASK = ["fertiliser-dates", "fertiliser-split", "fertiliser-firings", "tillage-dates", "tillage-payload", "tillage-firings",
-        "irrigation-arrays", "irrigation-firings", "DSUMM/NH4Sum-jump", "REGEN/C1-jump", "date-arrays-after-harvest"]
+        "irrigation-arrays", "irrigation-firings", "DSUMM/NH4Sum-jump", "REGEN/C1-jump", "date-arrays-after-harvest",
+        "fertilisation-factor (DUNGSZEN vs configured Fertilization/100)"]
 
 
 def correspond(ctx):
@@ -479,8 +494,12 @@ def correspond(ctx):
             c.mismatches.append({"kind": "period", "case": cs["idx"], "expected": [cs["B"], cs["E"]],
                                  "observed": [cs["init"]["beginn"], cs["init"]["ende"]]})
             continue
+        if cs["run"].get("overnight_changes"):
+            # model: DSUMM changes only in a fertiliser firing (nitro_fert) / harvest, UMS only in the mineralisation step of a Nitro call
+            c.mismatches.append({"kind": "fertiliser-sums-between-days", "case": cs["idx"], "changes": cs["run"]["overnight_changes"],
+                                 "first": cs["run"]["overnight_first"]})
         good.append(cs)
-        c.bump(FMTS[cs["fmt"]])
+        c.bump(FMTS[cs["fmt"]]); c.bump("fertilisation %d %% from %s" % (cs["fertilization"], cs["fert_from"]))
         c.bump("fert-events", len(cs["fert"])); c.bump("till-events", len(cs["till"])); c.bump("irr-events", len(cs["irr"]))
         c.bump("fired", len(cs["ev"]))
     tab = "Definition tab : list (frow float) := %s." % _table_coq(table)
@@ -516,7 +535,7 @@ def correspond(ctx):
             else:
                 cs = good[idx]
                 c.mismatches.append({"kind": "whole-run", "case": cs["idx"], "special": cs["special"],
-                                     "differs": [MASK[j] for j in range(11) if mask >> j & 1],
+                                     "differs": [MASK[j] for j in range(12) if mask >> j & 1],
                                      "line": "c10_%d" % cs["idx"], "fert": cs["fert"], "till": cs["till"], "irr": cs["irr"],
                                      "begin": str(cs["begin"]), "end": str(cs["end"]), "format": FMTS[cs["fmt"]]})
     # organic fertiliser of automatic management and the crop-skip branch: runs with automatic fertilisation
@@ -698,6 +717,11 @@ def oracle(ctx, search):
         to = [e for e in cs["ev"] if e["kind"] == "till"]
         if [z for z, _ in te] != [e["zeit"] for e in to] or any(e["subd"] != 1 or e["adv"] != 1 for e in to):
             fail("tillage-firing", "tillage cursor advanced on days %s, the schedule demands %s" % ([e["zeit"] for e in to][:12], [z for z, _ in te][:12]))
+        if run.get("overnight_changes"):
+            o1 = run["overnight_first"][0]
+            fail("fertiliser-N-discarded", "applied mineral fertiliser N changed between the end of a day and the start of the next without a measurement "
+                 "day (%d times); first: before day %s DSUMM %r -> %r, released part UMS %r -> %r"
+                 % (run["overnight_changes"], numday(o1["zeit"]), go_hex(o1["dsumm"][0]), go_hex(o1["dsumm"][1]), go_hex(o1["ums"][0]), go_hex(o1["ums"][1])))
         if run["regen_unexplained"] or run["dsumm_unexplained"]:
             fail("unscheduled-jump", "%d days with rain changed without irrigation, %d Nitro calls changed DSUMM/NH4Sum without a scheduled event"
                  % (run["regen_unexplained"], run["dsumm_unexplained"]))
